@@ -253,3 +253,77 @@ def imm_decode_rule(ctx, R, M, tag, part='values'):
                     else:
                         R.ok(inst, sample='%s: %d offset bytes, operand size %s' % (inst, nbytes, want_size))
     R.note('%d evaluations of the operand loop of _dis over %d (kind, w8, se) combinations of live cells (%s)' % (n_eval, len(cs), part))
+
+
+def find_asm_operand_loop(arch):
+    ac = arch.method('x86_mn', 'asm_candidates')
+    best = None
+    for n in ast.walk(ac):
+        if isinstance(n, ast.For) and isinstance(n.target, ast.Name):
+            v = n.target.id
+            names, uses_v = set(), False
+            for x in ast.walk(n):
+                if isinstance(x, ast.Compare):
+                    ns = [y.id for y in ast.walk(x) if isinstance(y, ast.Name)]
+                    if v in ns:
+                        uses_v = True
+                        names.update(ns)
+            if uses_v and ('ims' in names or 'imm' in names):
+                best = n
+    if best is None:
+        raise AnalysisError('x86_mn.asm_candidates: the loop over the operand kinds of a candidate row was not found')
+    return ac, best
+
+
+def asm_operand_loop_total_rule(ctx, R, M):
+    """C10: the loop of asm_candidates that matches the parsed operands against the operand kinds of a candidate row, evaluated from its source for every row that takes an
+    immediate x operand lists of length 0..3 made of a register, an immediate and a memory operand (a line with too few, too many or the wrong kind of operands): the candidate is
+    refused or accepted, no Python exception escapes."""
+    from . import consteval as _ce
+    arch, afs, E = M.arch, M.afs, M.env
+    ac, loop = find_asm_operand_loop(arch)
+    base = _scope_base(M)
+    kinds = [afs.u08, afs.s08, afs.u16, afs.s16, afs.u32, afs.s32, E['imm'], E['ims']]
+    REG = lambda n: {afs.ad: False, afs.size: afs.u32, n: 1}
+    IMM = lambda v: {afs.ad: False, afs.size: afs.u32, afs.imm: SE.U[32](v)}
+    MEM = lambda: {afs.ad: afs.u32, afs.size: afs.u32, 3: 1, afs.imm: SE.U[32](8)}
+    lists = [('no operand', []), ('reg', [REG(1)]), ('eax', [REG(0)]), ('imm', [IMM(5)]), ('mem', [MEM()]), ('reg, imm', [REG(1), IMM(5)]), ('eax, imm', [REG(0), IMM(5)]),
+             ('reg, reg', [REG(1), REG(2)]), ('imm, imm', [IMM(5), IMM(7)]), ('reg, mem', [REG(1), MEM()]), ('mem, imm', [MEM(), IMM(5)]), ('reg, reg, imm', [REG(1), REG(2), IMM(5)]),
+             ('imm, reg', [IMM(5), REG(1)])]
+    rows = {}
+    for path, c in sorted(M.cells.items()):
+        ds = [d for d in c.row.rm if not isinstance(d, (dict, list))]
+        if any(d in kinds for d in ds):
+            k = (c.row.idx, bool(c.modifs.get(E['w8'])), bool(c.modifs.get(E['se'])))
+            rows.setdefault(k, c)
+    if len(rows) < 60:
+        raise AnalysisError('only %d table rows with an immediate operand kind (expected at least 60)' % len(rows))
+    n_eval = 0
+    for k, cell in sorted(rows.items()):
+        bad = None
+        for label, ops in lists:
+            cand = Obj('c')
+            cand.modifs = dict((E[k_], None) for k_ in ('w8', 'se', 'sw', 'sd', 'wd', 'mmx', 'sg', 'dr', 'cr') if k_ in E)
+            cand.modifs.update(cell.modifs)
+            cand.afs, cand.rm, cand.opc, cand.name = cell.row.afs, list(cell.row.rm), list(cell.opc), cell.row.name
+            me = class_obj(arch, 'x86_mn', 'self')
+            me.mnemo_mode, me.opmode, me.admode = afs.u32, afs.u32, afs.u32
+            loc = dict(base)
+            loc.update({'self': me, 'c': cand, 'args_sample': [dict(o) for o in ops], 'args_eval': [dict(o) for o in ops], 'afs': cell.row.afs, 'dibs': list(cell.row.rm), 'name': cell.name,
+                        'good_c': True, 'opc_add': [], 'parsed_args': [], 'parsed_val': [{}], 'out_opc': [list(cell.opc)], 'dib_out': [], 'prefix': [],
+                        'x86mndb': class_obj(arch, 'x86allmncs', 'x86mndb'), 'modifs': dict(cand.modifs)})
+            try:
+                Evaluator(loc).exec_stmts([loop], loc)
+                n_eval += 1
+            except PyRaise as e:
+                bad = (label, e.exc_name)
+                break
+            except NotConst as e:
+                raise AnalysisError('x86_mn.asm_candidates: the operand loop is outside the evaluable subset for %s with operands (%s): %s' % (cell.row.key(), label, e))
+        inst = 'asm-operands:%s' % cell.row.key()
+        if bad:
+            R.violation(inst, 'asm-operand-loop:%s:%s' % (cell.row.name, bad[1]), 'asm_candidates raises %s matching the operands (%s) against the row %s: a line with these operands is '
+                        'neither assembled nor refused' % (bad[1], bad[0], cell.row.key()), where(arch, loop), witness="asm('%s')" % cell.name)
+        else:
+            R.ok(inst, sample='%s: %d operand lists are accepted or refused' % (cell.row.key(), len(lists)), nontrivial=(cell.row.idx % 4 == 0))
+    R.note('%d evaluations of the operand-matching loop of asm_candidates over %d rows with an immediate' % (n_eval, len(rows)))
